@@ -73,8 +73,8 @@ func (e *fakeEngine) Express(interest *ndn.EncodedInterest, cb ndn.ExpressCallba
 	}
 	return nil
 }
-func (e *fakeEngine) RegisterRoute(prefix enc.Name) error              { return nil }
-func (e *fakeEngine) UnregisterRoute(prefix enc.Name) error            { return nil }
+func (e *fakeEngine) RegisterRoute(prefix enc.Name) error   { return nil }
+func (e *fakeEngine) UnregisterRoute(prefix enc.Name) error { return nil }
 func (e *fakeEngine) ExecMgmtCmd(module string, cmd string, args any) error {
 	if e.onExec != nil {
 		return e.onExec(module, cmd, args)
